@@ -19,7 +19,7 @@ from ..seams import quiet
 from .c05 import Stopper
 
 PROP = 'C15'
-TIERS = {'quick': 4500, 'thorough': 40000}
+TIERS = {'quick': 4500, 'thorough': 480000}
 RULE = ('each run: a seeded design (sequences with repeats, counters, registers, gates; widths 1-64) with a Waveform '
         'watching 1-10 entries (wires, in/out ports, duplicates, aliases), 0-200 cycles in 1-3 segments separated by '
         'clear(); non-trivial = >= 1 cycle recorded, some watched wire changed value and some value repeated '
